@@ -152,6 +152,24 @@ def run_C01(res):
             missing = [fmt_mv(m) for m in want if m not in got]
             res.fail("generated moves differ from the legal moves of the rules", position=p, illegal_generated=extra,
                      legal_missing=missing, expected=sm, observed=" ".join(fmt_mv(m) for m in got))
+    if res.tier == "thorough":
+        # EXHAUSTIVE family: K + one man v K, every placement, either side to move (all structurally valid ones)
+        import concurrent.futures
+        with concurrent.futures.ThreadPoolExecutor(16) as ex:
+            blocks = list(ex.map(lambda wk: [l for l in run_driver([f"gsmall {wk}"]) if l and l != "bad-op"], range(64)))
+        nsmall = 0
+        for blk in blocks:
+            gi = run_hx_par(["moves " + p for p in blk])
+            sm = run_driver_par(["smoves " + p for p in blk])
+            gm = run_driver_par(["moves " + p for p in blk])
+            compare(res, "legal_moves (K+X v K, exhaustive)", ["moves " + p for p in blk], gi, gm)
+            for p, a, b in zip(blk, gi, sm):
+                nsmall += 1
+                if sorted(parse_moves(a), key=mv_key) != parse_moves(b):
+                    res.fail("generated moves differ from the legal moves of the rules", position=p, expected=b, observed=a, family="K+X v K exhaustive")
+        res.evaluations += nsmall
+        res.count("exhaustive_K_plus_one_man_v_K_positions", nsmall)
+        res.notes.append("the K+X v K family is enumerated completely (exhaustive for that family); the other families are samples")
     res.assumptions.append("oracle: Rawr.Spec.legalMoves (coordinate rules); domain filter V∧E evaluated by the Lean spec")
 
 
